@@ -1282,4 +1282,12 @@ REGRESSION_DOCS = [
     '# TYPE a gauge\na 1 1700000000.000000100\na 2 1700000000.000000000\n# EOF\n',
     '# TYPE a gauge\na 1 9007199254740993\na 2 9007199254740992\n# EOF\n',
     '# TYPE a gauge\na 1 0e0\na 2 -1\n# EOF\n', '# TYPE a gauge\na 1 0e0\na 2\n# EOF\n',
+    # witnesses of proofs/OMTotal.v (C14_om_total): the non-vacuity document, a deltas list holding only a space,
+    # exemplar labels with further closing braces (the label loop is cut at the LAST unquoted closing brace)
+    '# TYPE h histogram\n# HELP h help\nh_bucket{le="1"} 1 # {a="b"} 1 1\nh_bucket{le="+Inf"} 2\nh_count 2\nh_sum 3\n'
+    'h {count:1,sum:1,schema:0,zero_threshold:0,zero_count:0,positive_spans:[0:1,2:3],positive_deltas:[1,2]}\n'
+    '# TYPE s summary\ns{quantile="1"} 1 1.5e0\n# EOF\n',
+    '# TYPE a histogram\na {count:1,sum:1,schema:0,zero_threshold:0,zero_count:0,positive_deltas:[ ]}\n# EOF\n',
+    '# TYPE a counter\na_total 1 # {}} 1\n# EOF\n', '# TYPE a counter\na_total 1 # {a="b"}} 1\n# EOF\n',
+    '# TYPE a counter\na_total 1 # {}a="b"} 1\n# EOF\n', '# TYPE a counter\na_total 1 # {,}} 1\n# EOF\n',
 ]
